@@ -67,12 +67,17 @@ CONFIGS = {
     # genuine blockwise (not in the default policy):
     'wo4_blk32': _c(w=_t(4, True, 'BLOCKWISE', block=32), cp='FLOAT', xd=True),
     'skip_wo4_blk32': _c(w=_t(4, True, 'BLOCKWISE', block=32), cp='FLOAT', xd=True, skip=True),
+    # block sizes that divide the small input dimensions of generated FULLY_CONNECTED ops, so that
+    # the emulated sub-channel rewrite really runs:
+    'skip_wo4_blk2': _c(w=_t(4, True, 'BLOCKWISE', block=2), cp='FLOAT', xd=True, skip=True),
+    'skip_wo8_blk4': _c(w=_t(8, True, 'BLOCKWISE', block=4), cp='FLOAT', xd=True, skip=True),
     # accepted only because checks are skipped:
     'skip_bad_w16': _c(w=_t(16, True, 'TENSORWISE'), cp='INTEGER', skip=True),
     'skip_a8w8': _c(act=_t(8, False), w=_t(8, True, 'CHANNELWISE'), cp='INTEGER', skip=True),
 }
 CONFIG_NAMES = list(CONFIGS)
 ODD_CONFIGS = ['drq8_ch_b32', 'wo8_t_b16', 'a8w8_actb8', 'wo4_blk32', 'skip_wo4_blk32']
+BLOCKWISE_RUNNABLE = ['skip_wo4_blk2', 'skip_wo8_blk4']
 STATIC_CONFIGS = ['a8w8', 'a8w8_t', 'a8sw8', 'a16w8', 'a8w4', 'a16w4']
 WEIGHT_CONFIGS = ['wo8_ch', 'wo8_asym', 'wo4_t', 'wo4_ch', 'drq8_ch', 'drq8_t', 'drq4_ch']
 GOOD_FOR = {
